@@ -665,6 +665,27 @@ def make_layout_reorder_case(seed, fmt="picosvg"):
     return case
 
 
+def make_two_donor_case(seed, fmt="picosvg"):
+    """a glyph that borrows shapes from TWO other glyphs which share nothing with each other (e000: triangle, e001: pentagon, e002: both, moved);
+    the order of the layers in the borrower and the input order of the donors vary"""
+    import random
+
+    r = random.Random(seed)
+    tri = lambda dx, dy: f"M{20 + dx},{70 + dy} L{50 + dx},{20 + dy} L{80 + dx},{70 + dy} Z"
+    pen = lambda dx, dy: f"M{50 + dx},{12 + dy} L{84 + dx},{38 + dy} L{70 + dx},{80 + dy} L{30 + dx},{80 + dy} L{16 + dx},{38 + dy} Z"
+    a = f'<path d="{tri(0, 0)}" fill="#CC0000"/>'
+    b = f'<path d="{pen(0, 0)}" fill="#0044CC"/>'
+    layers = [f'<path d="{pen(4, 6)}" fill="#00AA00"/>', f'<path d="{tri(-6, 8)}" fill="#FFCC00"/>']
+    # the eight combinations of layer order and input order are enumerated by the seed (seed % 8), not drawn
+    if (seed // 4) % 2:
+        layers.reverse()
+    glyphs = [a, b, "".join(layers)]
+    order = [(0, 1, 2), (1, 0, 2), (2, 0, 1), (0, 2, 1)][seed % 4]
+    svgs = [f'<svg xmlns="http://www.w3.org/2000/svg" viewBox="0 0 100 100">{glyphs[i]}</svg>' for i in order]
+    cfg = {"color_format": fmt, "upem": 1000, "ascender": 1000, "descender": 0, "width": 1000, "reuse_tolerance": 0.1, "keep_glyph_names": True}
+    return {"id": f"two-donors:{fmt}:{seed}", "seed": seed, "fmt": fmt, "svgs": svgs, "config": cfg, "codepoints": [[0xE000 + i] for i in range(3)], "family": "two-donors"}
+
+
 def make_shared_gradient_case(seed, fmt="picosvg"):
     """glyphs that share NO outline (so they end up in different OT-SVG documents) but use identical gradient definitions"""
     import random
